@@ -10,6 +10,7 @@ WT="${SEED_WT:-/tmp/wt-$ID}"; ROOT="$(cd "$(dirname "$0")/.." && pwd)"; DST="$RO
 mkdir -p "$DST"
 cp "$WT/demo/patch.diff" "$DST/patch.diff"; cp "$WT/demo/demo.c" "$DST/demo.c"
 cp "$WT/demo/run.sh" "$DST/run.orig.sh"
+[ -n "${SEED_EXTRA_FLAGS:-}" ] && echo "$SEED_EXTRA_FLAGS" > "$DST/extra_flags"
 cat > "$DST/run.sh" <<'RUN'
 #!/bin/sh
 # Builds the demonstration against a tree of ft/ufw (UFW_SRC, default /repo) and runs it: exit 0 = property held.
@@ -17,7 +18,8 @@ HERE="$(cd "$(dirname "$0")" && pwd)"
 SRC="${UFW_SRC:-/repo}"; CFG="${UFW_CFG:-/verif/build/main/cfg/include}"; BIN="${DEMO_BIN:-/var/tmp/ufw-seed-demo.$$}"
 LIB="allocator crc-16-arc endpoints/buffer endpoints/continuable-sink endpoints/core endpoints/instrumentable endpoints/trivial length-prefix byte-buffer persistent-storage registers/core registers/utilities hexdump register-protocol rfc1055 ring-buffer-iter variable-length-integer octet-ring"
 FILES=""; for f in $LIB; do FILES="$FILES $SRC/src/$f.c"; done
-${CC:-gcc} -std=gnu99 -O1 -w -I"$SRC/include" -I"$CFG" -DSYSTEM_ENDIANNESS_LITTLE -DUFW_USE_BUILTIN_SWAP -D_DEFAULT_SOURCE -o "$BIN" "$HERE/demo.c" $FILES -lm || exit 3
+EXTRA="$(cat "$HERE/extra_flags" 2>/dev/null)"   # a demonstration may need link-time seams of its own (e.g. -Wl,--wrap=malloc)
+${CC:-gcc} -std=gnu99 -O1 -w -I"$SRC/include" -I"$CFG" -DSYSTEM_ENDIANNESS_LITTLE -DUFW_USE_BUILTIN_SWAP -D_DEFAULT_SOURCE -o "$BIN" "$HERE/demo.c" $FILES -lm $EXTRA || exit 3
 "$BIN"; rc=$?; rm -f "$BIN"; exit $rc
 RUN
 chmod +x "$DST/run.sh"
